@@ -429,3 +429,115 @@ def c17_4(ctx: Ctx) -> RuleResult:
         i.rule = "C17.4"
     r.rule, r.title = "C17.4", "each sampler is created with the mask of exactly the free variables assigned to it"
     return r
+
+
+# --------------------------------------------------------------------- C17.5
+@rule(P)
+def c17_5(ctx: Ctx) -> RuleResult:
+    """A sampler that handles no variable (all its variables fixed, or its index assigned to fixed variables only)
+    must still return the all-zero array: `scipy.stats.qmc.scale` raises ValueError on a sample without columns
+    (max of an empty array), so every call of it has to be guarded by a test that the dimension is not zero - in
+    the function itself or, through its call sites, in every calling context inside the class."""
+    res = RuleResult("C17.5", "DOM", "a quasi-Monte-Carlo sampler without handled variables returns zeros: qmc.scale is never reached with zero columns")
+    X = ctx.X
+    from ..callgraph import _is_bound_call, bind_args
+    from ..pattern import norm
+    from ..terms import _subst
+    from ..util import _pc_literals, bool_nnf, norm_cond, path_condition, stmt_of
+
+    def dim_term(t: Term):
+        """the number of columns: the length of the bounds handed to scale() (locals followed)"""
+        args = list(t[2][1:]) + [v for k, v in t[3] if k in ("l_bounds", "u_bounds")]
+        for a in args:
+            for x in (a[1] if a[0] == "phi" else [a]):
+                if x[0] == "call" and x[1][0] == "global" and x[2]:
+                    fn = x[1][1]
+                    if fn == "numpy.repeat" and len(x[2]) >= 2:
+                        return x[2][1]
+                    if fn in ("numpy.full", "numpy.ones", "numpy.zeros", "numpy.empty"):
+                        return x[2][0]
+                if x[0] == "binop" and x[1] == "*":
+                    for side, other in ((x[2], x[3]), (x[3], x[2])):
+                        if side[0] in ("list", "tuple"):
+                            return other
+        return None
+
+    def implies_nonzero(lits, dterms, mask_none_ok=True) -> bool:
+        want = set()
+        for d in dterms:
+            for c_, pol_ in ((("cmp", ">", d, ("const", 0)), True), (("cmp", "!=", d, ("const", 0)), True), (("cmp", ">=", d, ("const", 1)), True), (d, True),
+                             (("cmp", "<", ("const", 0), d), True), (("cmp", "<=", ("const", 1), d), True),
+                             (("cmp", "==", d, ("const", 0)), False), (("cmp", "<", d, ("const", 1)), False), (("cmp", "<=", d, ("const", 0)), False),
+                             (("cmp", "==", ("const", 0), d), False)):
+                a_, p_ = norm_cond(c_)
+                want.add((a_, p_ == pol_))
+        return any((a_, p_) in want for a_, p_ in lits)
+
+    def site_guarded(f, node, dterms, depth: int) -> bool:
+        st = stmt_of(node)
+        pc = path_condition(ctx, f, st)
+        if pc:
+            g_ = bool_nnf(("bool", "and", tuple(c_ if p_ else ("unary", "not", c_) for c_, p_ in pc)))
+            for it in (g_[1] if g_[0] == "and" else [g_]):
+                if it[0] == "lit" and implies_nonzero([(it[1], it[2])], dterms):
+                    return True
+                if it[0] == "or":
+                    # every alternative implies a non-empty dimension, or says that the sampler has no mask (it then
+                    # handles every variable)
+                    def alt_ok(x):
+                        if x[0] != "lit":
+                            return False
+                        if implies_nonzero([(x[1], x[2])], dterms):
+                            return True
+                        a_ = x[1]
+                        return bool(x[2]) and a_[0] == "cmp" and a_[1] == "is" and a_[3] == ("const", None) and a_[2][0] == "attr" and "mask" in a_[2][2]
+                    if all(alt_ok(x) for x in it[1]):
+                        return True
+        if depth >= 3:
+            return False
+        sites = [(c_, n_) for c_, n_ in ctx.cg.callers(f) if c_ is not f]
+        if not sites:
+            return False
+        for caller, call in sites:
+            ct = X.at(caller, call)
+            d2 = set(dterms)
+            if ct[0] == "call":
+                try:
+                    bound = bind_args(f, ct, bound=_is_bound_call(ct, f))
+                except Exception:  # noqa: BLE001
+                    bound = {}
+                mapping = {("param", f.qualname, p_): a_ for p_, a_ in bound.items() if a_ is not None}
+                if mapping:
+                    def proj(x):
+                        # component of a tuple argument: `r, p, d = shape` with shape=(r, p, d) at the call site
+                        if isinstance(x, tuple) and x and x[0] in ("item", "sub") and len(x) == 3 and isinstance(x[1], tuple) and x[1] and x[1][0] in ("tuple", "list"):
+                            i_ = x[2] if isinstance(x[2], int) else (x[2][1] if isinstance(x[2], tuple) and x[2][0] == "const" else None)
+                            if isinstance(i_, int) and -len(x[1][1]) <= i_ < len(x[1][1]):
+                                return x[1][1][i_]
+                        return x
+                    d2 |= {norm(proj(_subst(d, mapping))) for d in dterms}
+            if not site_guarded(caller, call, d2, depth + 1):
+                return False
+        return True
+
+    n_sites = 0
+    for c in sampler_impls(ctx):
+        for m in _draw_methods(ctx, c):
+            for call in calls_in(m):
+                t = X.at(m, call)
+                if not (t[0] == "call" and t[1] == ("global", "scipy.stats.qmc.scale")):
+                    continue
+                n_sites += 1
+                dn = dim_term(t)
+                if dn is None:
+                    raise AnalysisError(f"{m.qualname}: cannot identify the number of columns handed to qmc.scale")
+                d0 = norm(dn)
+                ok = site_guarded(m, call, {d0}, 0)
+                res.add(m, call, "qmc.scale is reached only where the number of sampled variables is not zero", ok,
+                        "" if ok else "a sampler whose variables are all fixed (an empty mask) reaches scipy.stats.qmc.scale with a sample without columns: it raises "
+                        "ValueError (maximum of an empty array) instead of returning the all-zero array the statistical samplers return",
+                        construct=f"{c.name}: empty-dimension guard of qmc.scale")
+    if n_sites == 0:
+        res.add(None, None, "no call of scipy.stats.qmc.scale in the built-in samplers: nothing to guard", True, construct="qmc.scale sites", where="src/ropt/plugins/sampler", fname="<samplers>")
+    res.floor = 1
+    return res
